@@ -15,6 +15,9 @@ CONSTANTS
   BufPool = FALSE
   TrackNeg = FALSE
   Once = TRUE
+  WsScript <- WsNone
+  WsPings = 0
+  WsSharedMsg = FALSE
 INIT Init
 NEXT Next
 VIEW view
